@@ -7,6 +7,7 @@ import (
 
 type stiffCase struct {
 	X1, Y1, X2, Y2, T1, T2, E, A, I string
+	Pin                             bool // both ends hinged (no loads: what the code calls an axial member)
 }
 
 type stiffOut struct {
@@ -19,16 +20,20 @@ type stiffOut struct {
 
 func init() { commands["stiff"] = cmdStiff }
 
-func makeBar(id string, x1, y1, x2, y2, e, a, i float64) *structure.Element {
+func makeBar(id string, x1, y1, x2, y2, e, a, i float64, pin bool) *structure.Element {
 	var (
 		n1  = structure.MakeFreeNodeAtPosition("n1", x1, y1)
 		n2  = structure.MakeFreeNodeAtPosition("n2", x2, y2)
 		mat = structure.MakeMaterial("m", 1, e, 1, 1, 1, 1)
 		sec = structure.MakeSection("s", a, i, 1, 1, 1)
 	)
+	link := &structure.FullConstraint
+	if pin {
+		link = &structure.DispConstraint
+	}
 	return structure.MakeElementBuilder(id).
-		WithStartNode(n1, &structure.FullConstraint).
-		WithEndNode(n2, &structure.FullConstraint).
+		WithStartNode(n1, link).
+		WithEndNode(n2, link).
 		WithMaterial(mat).
 		WithSection(sec).
 		Build()
@@ -45,7 +50,7 @@ func cmdStiff() {
 					outs[n].Panic = toString(r)
 				}
 			}()
-			bar := makeBar("b", pf(c.X1), pf(c.Y1), pf(c.X2), pf(c.Y2), pf(c.E), pf(c.A), pf(c.I))
+			bar := makeBar("b", pf(c.X1), pf(c.Y1), pf(c.X2), pf(c.Y2), pf(c.E), pf(c.A), pf(c.I), c.Pin)
 			t1, t2 := nums.MakeTParam(pf(c.T1)), nums.MakeTParam(pf(c.T2))
 			// histories: the matrix of this sub-span is asked for, then the same bar is asked for other
 			// sub-spans (and for this one in the other order), and only then is the first matrix read
